@@ -71,6 +71,28 @@ theorem nolegal_visit (K : Keys) (p : Pos) (h : Heur) (pv tt : Move) (ply : Nat)
     rw [makeMove_low K p g, hge, ← makeMove_low K p m]; exact hq
   exact hno g hg q this
 
+/-! ### the moves the loops make (P04m)
+
+`nmLoop` and `qLoop` only call `makeMove` on the words of `visitOrder scored`, where `scored` is `scoreMoves … (genMoves p)`
+resp. `scoreMoves … (genCaptures p)`: words that agree with a generated word up to the score bits.  `GenMv p m` says so; the class
+closure hypotheses of the search lemmas only have to hold for such words. -/
+
+/-- `m` is, up to its score bits, a word of the move generator or of the capture generator in `p` -/
+def GenMv (p : Pos) (m : Move) : Prop :=
+  m % 65536 ∈ (genMoves p).map (· % 65536) ∨ m % 65536 ∈ (genCaptures p).map (· % 65536)
+
+theorem genMv_visit_moves (p : Pos) (h : Heur) (pv tt : Move) (ply : Nat) (scored : List Move)
+    (hs : scoreMoves p h pv tt ply (genMoves p) = some scored) : ∀ m ∈ visitOrder scored, GenMv p m := by
+  intro m hm
+  have hperm := visit_scored_perm p h pv tt ply (genMoves p) scored hs
+  exact Or.inl (hperm.mem_iff.1 (List.mem_map_of_mem hm))
+
+theorem genMv_visit_caps (p : Pos) (h : Heur) (pv tt : Move) (ply : Nat) (scored : List Move)
+    (hs : scoreMoves p h pv tt ply (genCaptures p) = some scored) : ∀ m ∈ visitOrder scored, GenMv p m := by
+  intro m hm
+  have hperm := visit_scored_perm p h pv tt ply (genCaptures p) scored hs
+  exact Or.inr (hperm.mem_iff.1 (List.mem_map_of_mem hm))
+
 theorem post_negamax_checkmated (K : Keys) (fuel : Nat) (p : Pos) (alpha beta : Int) (depth ply : Nat) (cn : Bool) (prev : Move)
     (hcheck : isInCheck p p.side = true)
     (hno : ∀ m ∈ genMoves p, ∀ q, makeMove K p m = some q → isLegal q = false)
